@@ -1,6 +1,7 @@
 package checks
 
 import (
+	"crypto/sha256"
 	"encoding/json"
 	"fmt"
 	"sort"
@@ -8,6 +9,7 @@ import (
 	"github.com/mit-pdos/go-journal/vrt"
 	"github.com/mit-pdos/go-nfsd/nfs"
 	"verif/crash"
+	"verif/explore"
 	"verif/fsck"
 	"verif/fsx"
 	"verif/par"
@@ -19,7 +21,7 @@ import (
 // ---- crash exploration of one NFS history (engines E3+E2), shared by C01, C04, C05, C07, C12 ----
 
 type crashArg struct {
-	Prop       string     `json:"prop"`  // property that owns the prefix/durability oracle (C01, C07 or C12)
+	Prop       string     `json:"prop"` // property that owns the prefix/durability oracle (C01, C07 or C12)
 	DiskSize   uint64     `json:"disk"`
 	Setup      []fsx.Op   `json:"setup"`
 	Ops        []fsx.Op   `json:"ops"`
@@ -32,8 +34,9 @@ type crashArg struct {
 	Reclaim    bool       `json:"reclaim,omitempty"` // C05: touch/reuse procedure + reclaim audit after recovery
 	FsckOnly   bool       `json:"fsck_only,omitempty"`
 	MaxImages  int        `json:"max_images,omitempty"`
-	CheckVerf  bool       `json:"check_verf,omitempty"`  // C07: verifier constant within an instance, different after recovery
-	ReadBack   bool       `json:"read_back,omitempty"`   // C07: data of every write is readable immediately
+	Sched      int        `json:"sched,omitempty"`      // also explore every schedule of the history run with <= Sched deviations (daemons run early), points at disk writes
+	CheckVerf  bool       `json:"check_verf,omitempty"` // C07: verifier constant within an instance, different after recovery
+	ReadBack   bool       `json:"read_back,omitempty"`  // C07: data of every write is readable immediately
 }
 
 type crashRes struct {
@@ -48,6 +51,8 @@ type crashRes struct {
 	Events       int                 `json:"events"`
 	Skipped      int64               `json:"skipped_images"`
 	Nested       int64               `json:"nested_images"`
+	Schedules    int64               `json:"schedules"`
+	Traces       int64               `json:"distinct_traces"`
 }
 
 func crashJob(raw json.RawMessage) (interface{}, error) {
@@ -97,254 +102,298 @@ func crashJob(raw json.RawMessage) (interface{}, error) {
 	var d *vdisk.Disk
 	var origVerf []byte
 	bad := false
-	res = vrt.Run(vrt.Config{DaemonEager: a.Eager, KeepClock: true}, func() {
-		w := &World{Disk: vdisk.New(img0), Vars: vars0.Clone(), Model: model0.Clone(), Unstable: !a.NoUnstable, Probe: probe}
-		w.Srv = nfs.MakeNfs(w.Disk)
-		w.Srv.Unstable = w.Unstable
-		d = w.Disk
-		w.Mark = true
-		models = append(models, w.Model.Clone())
-		classes = append(classes, "")
-		for _, o := range a.Ops {
-			if !w.Enabled(o) {
-				bad = true
-				return
-			}
-			cl := w.OpClass(o)
-			r, _, mis := w.Do(o)
-			out.Transitions++
-			if mis != nil {
-				// sequential semantics are C02's business; a history that disagrees with the model cannot be used
-				viol(a.Prop, "history-disagrees-with-model|"+mis.Rule+"|"+cl, mis.Msg+"\nreply: "+r.Brief())
-				bad = true
-				return
-			}
-			if a.CheckVerf && r.OK() && (o.K == "WRITE" || o.K == "COMMIT") {
-				if origVerf == nil {
-					origVerf = r.Verf
-				} else if string(origVerf) != string(r.Verf) {
-					viol(a.Prop, "verifier-not-constant|"+cl, fmt.Sprintf("verifier %x, earlier reply of the same server instance had %x", r.Verf, origVerf))
-				}
-			}
-			if a.ReadBack && r.OK() && o.K == "WRITE" {
-				w.Mark = false
-				rb := fsx.Op{K: "READ", H: o.H, Off: o.Off, Cnt: o.Cnt}
-				if rr, _, m := w.Do(rb); m != nil {
-					viol(a.Prop, "unstable-data-not-readable|"+m.Rule+"|"+cl, m.Msg+"\nreply: "+rr.Brief())
-				}
-				w.NOps--
-				w.Mark = true
-			}
+	runHistory := func(prefix []int) vrt.Result {
+		models, classes, origVerf = nil, nil, nil
+		pts := 0
+		if a.Sched > 0 {
+			pts = vrt.PDiskW
+		}
+		return vrt.Run(vrt.Config{DaemonEager: a.Eager, KeepClock: true, Prefix: prefix, Points: pts}, func() {
+			w := &World{Disk: vdisk.New(img0), Vars: vars0.Clone(), Model: model0.Clone(), Unstable: !a.NoUnstable, Probe: probe}
+			w.Srv = nfs.MakeNfs(w.Disk)
+			w.Srv.Unstable = w.Unstable
+			d = w.Disk
+			w.Mark = true
 			models = append(models, w.Model.Clone())
-			classes = append(classes, cl)
-		}
-		vrt.Quiesce() // background installer and shrinkers finish: their writes belong to the trace
-	})
-	if v := VerdictViolation(&res, a.Prop, "history"); v != nil {
-		viol(a.Prop, v.Sig, v.Detail)
-		return out, nil
-	}
-	if bad {
-		return out, nil
-	}
-	out.Events = len(d.Log)
-	mdumps := make([]map[string]fsx.Node, len(models))
-	for i, m := range models {
-		mdumps[i] = m.Dump(probe)
-	}
-	// 3. crash images
-	cr := crash.Enumerate(img0, d.Log, a.Cap)
-	out.Raw = cr.Stats.RawChoices
-	out.CappedEpochs = cr.Stats.CappedEpochs
-	ack, inv := ackBounds(d.Log)
-	for ii, im := range cr.Images {
-		if a.MaxImages > 0 && ii >= a.MaxImages {
-			out.Skipped += int64(len(cr.Images) - ii)
-			break
-		}
-		out.Images++
-		if im.Lost > 0 || im.LogNonEmpty {
-			out.Nontrivial++
-		}
-		out.ImageKeys = append(out.ImageKeys, fmt.Sprintf("%x", im.Key[:8]))
-		lastInv := inv[im.Ranges[len(im.Ranges)-1].PMax]
-		cls := classes[lastInv]
-		// 3a. structure of the logical disk of the image (C04)
-		lget, _, lerr := crash.Logical(im.Img.Get)
-		if lerr != nil {
-			viol("C04", "crash-image|log-header|"+cls, fmt.Sprintf("image %s: %v", im.Desc, lerr))
-			continue
-		}
-		fr := fsck.Check(lget, a.DiskSize)
-		for _, e := range fr.Errors {
-			viol("C04", "crash-image|"+fsck.Rule(e)+"|"+cls, fmt.Sprintf("image %s (cut after event %d of %d)\n%s", im.Desc, im.Ranges[0].PMin, len(d.Log), e))
-		}
-		if a.FsckOnly {
-			continue
-		}
-		// 3b. recovery with the real code, two schedules
-		for pol := 0; pol < 2; pol++ {
-			var dump map[string]fsx.Node
-			var derr error
-			var post []string
-			var d2 *vdisk.Disk
-			rres := vrt.Run(vrt.Config{KeepClock: true}, func() {
-				d2 = vdisk.New(im.Img)
-				srv := nfs.MakeNfs(d2)
-				if pol == 1 {
-					vrt.Quiesce()
-				}
-				dump, derr = fsx.Dump(srv, probe)
-				if derr != nil {
+			classes = append(classes, "")
+			vrt.SetBranching(a.Sched > 0)
+			for _, o := range a.Ops {
+				if !w.Enabled(o) {
+					bad = true
 					return
 				}
-				// which prefix?
-				// the latest prefix state that matches among the operations invoked before the (latest) cut
-				// at which this image is possible - later operations never happened on this disk
-				k := -1
-				top := len(mdumps) - 1
-				if lastInv < top {
-					top = lastInv
-				}
-				for i := top; i >= 0; i-- {
-					if reffs.DiffDumps(dump, mdumps[i], true) == "" {
-						k = i
-						break
-					}
-				}
-				if k < 0 {
+				cl := w.OpClass(o)
+				r, _, mis := w.Do(o)
+				out.Transitions++
+				if mis != nil {
+					// sequential semantics are C02's business; a history that disagrees with the model cannot be used
+					viol(a.Prop, "history-disagrees-with-model|"+mis.Rule+"|"+cl, mis.Msg+"\nreply: "+r.Brief())
+					bad = true
 					return
 				}
-				// the recovered server keeps serving correctly: allocators, caches, a few more operations
-				w := &World{Disk: d2, Srv: srv, Vars: fsx.NewVars(), Model: models[k].Clone(), Unstable: true, Probe: probe}
-				vrt.Quiesce()
-				d2.Mark("post", 0, 0) // everything before this marker is recovery's own disk activity
-				fr2 := w.Fsck()
-				for _, e := range w.Audit(fr2) {
-					post = append(post, "audit|"+e)
-				}
-				for _, o := range []fsx.Op{{K: "CREATE", H: "root", N: "zz-new"}, {K: "WRITE", H: "root/zz-new", Off: 0, Cnt: 5000, Pat: 0x5a, Stable: 2},
-					{K: "MKDIR", H: "root", N: "zz-dir"}, {K: "READ", H: "root/zz-new", Off: 0, Cnt: 8192}, {K: "REMOVE", H: "root", N: "zz-new"}, {K: "RMDIR", H: "root", N: "zz-dir"}} {
-					rr, _, mis := w.Do(o)
-					if mis != nil {
-						post = append(post, "suffix|"+o.K+"|"+mis.Rule+": "+mis.Msg)
-						break
-					}
-					if a.CheckVerf && o.K == "WRITE" && origVerf != nil && string(rr.Verf) == string(origVerf) {
-						post = append(post, fmt.Sprintf("verifier-unchanged: the recovered server instance answers WRITE with the verifier %x of the instance that crashed", rr.Verf))
+				if a.CheckVerf && r.OK() && (o.K == "WRITE" || o.K == "COMMIT") {
+					if origVerf == nil {
+						origVerf = r.Verf
+					} else if string(origVerf) != string(r.Verf) {
+						viol(a.Prop, "verifier-not-constant|"+cl, fmt.Sprintf("verifier %x, earlier reply of the same server instance had %x", r.Verf, origVerf))
 					}
 				}
-				if len(post) == 0 {
-					if dd := w.CompareDump(true); dd != "" {
-						post = append(post, "suffix|dump: "+dd)
+				if a.ReadBack && r.OK() && o.K == "WRITE" {
+					w.Mark = false
+					rb := fsx.Op{K: "READ", H: o.H, Off: o.Off, Cnt: o.Cnt}
+					if rr, _, m := w.Do(rb); m != nil {
+						viol(a.Prop, "unstable-data-not-readable|"+m.Rule+"|"+cl, m.Msg+"\nreply: "+rr.Brief())
 					}
+					w.NOps--
+					w.Mark = true
+				}
+				models = append(models, w.Model.Clone())
+				classes = append(classes, cl)
+			}
+			vrt.SetBranching(false)
+			vrt.Quiesce() // background installer and shrinkers finish: their writes belong to the trace
+		})
+	}
+	// schedules of the history run: the default one, plus (Sched > 0) every schedule within the deviation bound
+	seenTrace := map[[32]byte]bool{}
+	seenImage := map[[32]byte]bool{}
+	stack := [][]int{nil}
+	for len(stack) > 0 {
+		prefix := stack[len(stack)-1]
+		stack = stack[:len(stack)-1]
+		res = runHistory(prefix)
+		out.Schedules++
+		if res.Diverged {
+			return nil, fmt.Errorf("nondeterminism in the history run: %s", res.Msg)
+		}
+		if v := VerdictViolation(&res, a.Prop, "history"); v != nil {
+			viol(a.Prop, v.Sig, v.Detail)
+			return out, nil
+		}
+		if bad {
+			return out, nil
+		}
+		if a.Sched > 0 {
+			kids := explore.Children(prefix, res.Points, a.Sched)
+			for i := len(kids) - 1; i >= 0; i-- {
+				stack = append(stack, kids[i])
+			}
+		}
+		th := sha256.New()
+		for _, e := range d.Log {
+			fmt.Fprintf(th, "%d|%d|%s|%d|%d;", e.Kind, e.Addr, e.Mark, e.Op, e.Arg)
+			th.Write(e.Blk)
+		}
+		var tk [32]byte
+		copy(tk[:], th.Sum(nil))
+		if seenTrace[tk] {
+			continue
+		}
+		seenTrace[tk] = true
+		out.Traces++
+		out.Events += len(d.Log)
+		mdumps := make([]map[string]fsx.Node, len(models))
+		for i, m := range models {
+			mdumps[i] = m.Dump(probe)
+		}
+		// 3. crash images
+		cr := crash.Enumerate(img0, d.Log, a.Cap)
+		out.Raw += cr.Stats.RawChoices
+		out.CappedEpochs += cr.Stats.CappedEpochs
+		ack, inv := ackBounds(d.Log)
+		for ii, im := range cr.Images {
+			if len(seenTrace) > 1 && seenImage[im.Key] {
+				continue // recovered and judged under an earlier schedule of the same history (sequential client: same bounds per operation)
+			}
+			seenImage[im.Key] = true
+			if a.MaxImages > 0 && ii >= a.MaxImages {
+				out.Skipped += int64(len(cr.Images) - ii)
+				break
+			}
+			out.Images++
+			if im.Lost > 0 || im.LogNonEmpty {
+				out.Nontrivial++
+			}
+			out.ImageKeys = append(out.ImageKeys, fmt.Sprintf("%x", im.Key[:8]))
+			lastInv := inv[im.Ranges[len(im.Ranges)-1].PMax]
+			cls := classes[lastInv]
+			// 3a. structure of the logical disk of the image (C04)
+			lget, _, lerr := crash.Logical(im.Img.Get)
+			if lerr != nil {
+				viol("C04", "crash-image|log-header|"+cls, fmt.Sprintf("image %s: %v", im.Desc, lerr))
+				continue
+			}
+			fr := fsck.Check(lget, a.DiskSize)
+			for _, e := range fr.Errors {
+				viol("C04", "crash-image|"+fsck.Rule(e)+"|"+cls, fmt.Sprintf("image %s (cut after event %d of %d)\n%s", im.Desc, im.Ranges[0].PMin, len(d.Log), e))
+			}
+			if a.FsckOnly {
+				continue
+			}
+			// 3b. recovery with the real code, two schedules
+			for pol := 0; pol < 2; pol++ {
+				var dump map[string]fsx.Node
+				var derr error
+				var post []string
+				var d2 *vdisk.Disk
+				rres := vrt.Run(vrt.Config{KeepClock: true}, func() {
+					d2 = vdisk.New(im.Img)
+					srv := nfs.MakeNfs(d2)
+					if pol == 1 {
+						vrt.Quiesce()
+					}
+					dump, derr = fsx.Dump(srv, probe)
+					if derr != nil {
+						return
+					}
+					// which prefix?
+					// the latest prefix state that matches among the operations invoked before the (latest) cut
+					// at which this image is possible - later operations never happened on this disk
+					k := -1
+					top := len(mdumps) - 1
+					if lastInv < top {
+						top = lastInv
+					}
+					for i := top; i >= 0; i-- {
+						if reffs.DiffDumps(dump, mdumps[i], true) == "" {
+							k = i
+							break
+						}
+					}
+					if k < 0 {
+						return
+					}
+					// the recovered server keeps serving correctly: allocators, caches, a few more operations
+					w := &World{Disk: d2, Srv: srv, Vars: fsx.NewVars(), Model: models[k].Clone(), Unstable: true, Probe: probe}
 					vrt.Quiesce()
-					fr3 := w.Fsck()
-					for _, e := range fr3.Errors {
-						post = append(post, "suffix|fsck|"+e)
+					d2.Mark("post", 0, 0) // everything before this marker is recovery's own disk activity
+					fr2 := w.Fsck()
+					for _, e := range w.Audit(fr2) {
+						post = append(post, "audit|"+e)
 					}
-					if a.Reclaim {
-						if pol == 0 {
-							post = append(post, reclaimAfterRecovery(w, fr2)...)
-						} else {
-							// the other way of touching half-freed objects: remove everything first
-							if m := w.DeleteAll(); m != nil {
-								post = append(post, "reclaim|deleteall|"+m.Rule+": "+m.Msg)
+					for _, o := range []fsx.Op{{K: "CREATE", H: "root", N: "zz-new"}, {K: "WRITE", H: "root/zz-new", Off: 0, Cnt: 5000, Pat: 0x5a, Stable: 2},
+						{K: "MKDIR", H: "root", N: "zz-dir"}, {K: "READ", H: "root/zz-new", Off: 0, Cnt: 8192}, {K: "REMOVE", H: "root", N: "zz-new"}, {K: "RMDIR", H: "root", N: "zz-dir"}} {
+						rr, _, mis := w.Do(o)
+						if mis != nil {
+							post = append(post, "suffix|"+o.K+"|"+mis.Rule+": "+mis.Msg)
+							break
+						}
+						if a.CheckVerf && o.K == "WRITE" && origVerf != nil && string(rr.Verf) == string(origVerf) {
+							post = append(post, fmt.Sprintf("verifier-unchanged: the recovered server instance answers WRITE with the verifier %x of the instance that crashed", rr.Verf))
+						}
+					}
+					if len(post) == 0 {
+						if dd := w.CompareDump(true); dd != "" {
+							post = append(post, "suffix|dump: "+dd)
+						}
+						vrt.Quiesce()
+						fr3 := w.Fsck()
+						for _, e := range fr3.Errors {
+							post = append(post, "suffix|fsck|"+e)
+						}
+						if a.Reclaim {
+							if pol == 0 {
+								post = append(post, reclaimAfterRecovery(w, fr2)...)
 							} else {
-								vrt.Quiesce()
-								fr4 := w.Fsck()
-								for _, e := range fr4.Reclaim() {
-									post = append(post, "reclaim|after-delete-all|"+e)
-								}
-								fb, fi := w.FreeCounts()
-								half := 0
-								for _, o := range fr4.Owned {
-									if !fr4.Reachable[o] {
-										half++
+								// the other way of touching half-freed objects: remove everything first
+								if m := w.DeleteAll(); m != nil {
+									post = append(post, "reclaim|deleteall|"+m.Rule+": "+m.Msg)
+								} else {
+									vrt.Quiesce()
+									fr4 := w.Fsck()
+									for _, e := range fr4.Reclaim() {
+										post = append(post, "reclaim|after-delete-all|"+e)
+									}
+									fb, fi := w.FreeCounts()
+									half := 0
+									for _, o := range fr4.Owned {
+										if !fr4.Reachable[o] {
+											half++
+										}
+									}
+									if half == 0 && (fb != uint64(a.DiskSize)-fr4.Layout.DataStart-uint64(len(fr4.Owned)) || fi != fr4.Layout.NInode-2-uint64(len(fr4.InUse))+1) {
+										post = append(post, fmt.Sprintf("reclaim|after-delete-all|free-counts: %d blocks / %d inodes free after deleting everything", fb, fi))
 									}
 								}
-								if half == 0 && (fb != uint64(a.DiskSize)-fr4.Layout.DataStart-uint64(len(fr4.Owned)) || fi != fr4.Layout.NInode-2-uint64(len(fr4.InUse))+1) {
-									post = append(post, fmt.Sprintf("reclaim|after-delete-all|free-counts: %d blocks / %d inodes free after deleting everything", fb, fi))
+							}
+						}
+					}
+				})
+				out.Recoveries++
+				if v := VerdictViolation(&rres, a.Prop, "recovery|"+cls); v != nil {
+					viol(a.Prop, v.Sig, fmt.Sprintf("image %s, recovery schedule %d\n%s", im.Desc, pol, v.Detail))
+					continue
+				}
+				if derr != nil {
+					viol(a.Prop, "crash|dump-failed|"+cls, fmt.Sprintf("image %s, recovery schedule %d: %v", im.Desc, pol, derr))
+					continue
+				}
+				var K []int
+				for i := range mdumps {
+					if reffs.DiffDumps(dump, mdumps[i], true) == "" {
+						K = append(K, i)
+					}
+				}
+				if ok, p, lo, hi := prefixOK(K, im.Ranges, ack, inv); !ok {
+					why := ""
+					if len(K) == 0 {
+						why = "recovered state equals no prefix state; against the state after the last invoked operation: " + reffs.DiffDumps(dump, mdumps[hi], true)
+						if hi > 0 {
+							why += "\nagainst the state before it: " + reffs.DiffDumps(dump, mdumps[hi-1], true)
+						}
+					} else {
+						why = fmt.Sprintf("recovered state equals prefix state(s) %v, but at cut %d operations 1..%d were acknowledged as stable and 1..%d invoked", K, p, lo, hi)
+					}
+					kind := "not-a-prefix-state"
+					if len(K) > 0 && K[len(K)-1] < lo {
+						kind = "acknowledged-operation-lost"
+					}
+					viol(a.Prop, "crash|"+kind+"|"+classes[hi], fmt.Sprintf("image %s (recovery schedule %d)\n%s", im.Desc, pol, why))
+				}
+				// nested crash: the recovery itself is cut (installer writes, Advance) and recovered again
+				if a.Nested && pol == 1 && len(K) > 0 && im.LogNonEmpty {
+					end := len(d2.Log)
+					for i, e := range d2.Log {
+						if e.Kind == vdisk.EvMark && e.Mark == "post" {
+							end = i
+							break
+						}
+					}
+					ncr := crash.Enumerate(im.Img, d2.Log[:end], 16)
+					for _, nim := range ncr.Images {
+						var ndump map[string]fsx.Node
+						var nerr error
+						nres := vrt.Run(vrt.Config{KeepClock: true}, func() {
+							srv := nfs.MakeNfs(vdisk.New(nim.Img))
+							ndump, nerr = fsx.Dump(srv, probe)
+						})
+						out.Recoveries++
+						out.Nested++
+						if v := VerdictViolation(&nres, a.Prop, "nested-recovery|"+cls); v != nil {
+							viol(a.Prop, v.Sig, fmt.Sprintf("image %s, then a second crash during recovery (%s)\n%s", im.Desc, nim.Desc, v.Detail))
+							continue
+						}
+						ok := nerr == nil
+						if ok {
+							ok = false
+							for _, k := range K {
+								if reffs.DiffDumps(ndump, mdumps[k], true) == "" {
+									ok = true
 								}
 							}
 						}
-					}
-				}
-			})
-			out.Recoveries++
-			if v := VerdictViolation(&rres, a.Prop, "recovery|"+cls); v != nil {
-				viol(a.Prop, v.Sig, fmt.Sprintf("image %s, recovery schedule %d\n%s", im.Desc, pol, v.Detail))
-				continue
-			}
-			if derr != nil {
-				viol(a.Prop, "crash|dump-failed|"+cls, fmt.Sprintf("image %s, recovery schedule %d: %v", im.Desc, pol, derr))
-				continue
-			}
-			var K []int
-			for i := range mdumps {
-				if reffs.DiffDumps(dump, mdumps[i], true) == "" {
-					K = append(K, i)
-				}
-			}
-			if ok, p, lo, hi := prefixOK(K, im.Ranges, ack, inv); !ok {
-				why := ""
-				if len(K) == 0 {
-					why = "recovered state equals no prefix state; against the state after the last invoked operation: " + reffs.DiffDumps(dump, mdumps[hi], true)
-					if hi > 0 {
-						why += "\nagainst the state before it: " + reffs.DiffDumps(dump, mdumps[hi-1], true)
-					}
-				} else {
-					why = fmt.Sprintf("recovered state equals prefix state(s) %v, but at cut %d operations 1..%d were acknowledged as stable and 1..%d invoked", K, p, lo, hi)
-				}
-				kind := "not-a-prefix-state"
-				if len(K) > 0 && K[len(K)-1] < lo {
-					kind = "acknowledged-operation-lost"
-				}
-				viol(a.Prop, "crash|"+kind+"|"+classes[hi], fmt.Sprintf("image %s (recovery schedule %d)\n%s", im.Desc, pol, why))
-			}
-			// nested crash: the recovery itself is cut (installer writes, Advance) and recovered again
-			if a.Nested && pol == 1 && len(K) > 0 && im.LogNonEmpty {
-				end := len(d2.Log)
-				for i, e := range d2.Log {
-					if e.Kind == vdisk.EvMark && e.Mark == "post" {
-						end = i
-						break
-					}
-				}
-				ncr := crash.Enumerate(im.Img, d2.Log[:end], 16)
-				for _, nim := range ncr.Images {
-					var ndump map[string]fsx.Node
-					var nerr error
-					nres := vrt.Run(vrt.Config{KeepClock: true}, func() {
-						srv := nfs.MakeNfs(vdisk.New(nim.Img))
-						ndump, nerr = fsx.Dump(srv, probe)
-					})
-					out.Recoveries++
-					out.Nested++
-					if v := VerdictViolation(&nres, a.Prop, "nested-recovery|"+cls); v != nil {
-						viol(a.Prop, v.Sig, fmt.Sprintf("image %s, then a second crash during recovery (%s)\n%s", im.Desc, nim.Desc, v.Detail))
-						continue
-					}
-					ok := nerr == nil
-					if ok {
-						ok = false
-						for _, k := range K {
-							if reffs.DiffDumps(ndump, mdumps[k], true) == "" {
-								ok = true
-							}
+						if !ok {
+							viol(a.Prop, "crash|nested|state-changed|"+cls, fmt.Sprintf("image %s recovers to prefix state(s) %v; after a second crash during that recovery (%s) the tree is different (dump error: %v)", im.Desc, K, nim.Desc, nerr))
 						}
 					}
-					if !ok {
-						viol(a.Prop, "crash|nested|state-changed|"+cls, fmt.Sprintf("image %s recovers to prefix state(s) %v; after a second crash during that recovery (%s) the tree is different (dump error: %v)", im.Desc, K, nim.Desc, nerr))
+				}
+				for _, e := range post {
+					prop := a.Prop
+					if len(e) > 7 && e[:7] == "reclaim" {
+						prop = "C05"
 					}
+					viol(prop, "crash|after-recovery|"+ruleOf(e)+"|"+cls, fmt.Sprintf("image %s (recovery schedule %d)\n%s", im.Desc, pol, e))
 				}
-			}
-			for _, e := range post {
-				prop := a.Prop
-				if len(e) > 7 && e[:7] == "reclaim" {
-					prop = "C05"
-				}
-				viol(prop, "crash|after-recovery|"+ruleOf(e)+"|"+cls, fmt.Sprintf("image %s (recovery schedule %d)\n%s", im.Desc, pol, e))
 			}
 		}
 	}
@@ -439,6 +488,8 @@ func runCrashJobs(r *report.Report, jobs []crashArg, props map[string]bool) {
 		r.Add("crash_choice_vectors", x.Raw)
 		r.Add("recoveries", x.Recoveries)
 		r.Add("nested_crash_images", x.Nested)
+		r.Add("history_schedules", x.Schedules)
+		r.Add("distinct_disk_traces", x.Traces)
 		r.Add("histories", 1)
 		r.Add("disk_events", int64(x.Events))
 		if x.CappedEpochs > 0 || x.Skipped > 0 {
